@@ -3,6 +3,9 @@
 (M) WriterPipe: AppendOnly (action property), HeaderFirst, PrefixOfFinal, RecoverK (the reader's view of
     EVERY truncation of EVERY reachable disk state is the first k complete samples of the final result),
     CompleteOnReturn, with Crash enabled in every state; three wrong writer designs refuted.
+(R) Gen_Sigpyproc: TLC generates complete behaviours of the top-level composition Sigpyproc.tla (input split, call,
+    every step, Return or Crash at any step); each is replayed into the real transform with the crash injected at the
+    named write, and the bytes on disk after every step are compared with the model's output file.
 (T) Trace_Writer: FileWriter.write/cwrite are wrapped at class level; after every write the bytes on disk
     are recorded and a copy is re-opened with the library's own FilReader; the final file is additionally
     truncated at every byte length and re-opened.  TLC accepts a file's history only as a behaviour of the
@@ -13,8 +16,8 @@ from __future__ import annotations
 import json
 import random
 
-from .. import pool, tlc, tracecheck, transforms
-from ..common import seed
+from .. import behaviours, compose_replay, pool, tlc, tracecheck, transforms
+from ..common import MachineryFailure, seed
 from . import c07
 
 OPS = ["invert", "mask", "extract_samps", "extract_chans", "extract_bands", "downsample", "subband", "zerodm",
@@ -122,6 +125,32 @@ def run(v) -> None:
         # re-synchronise: the data on disk is what was logged
         rest["ev"] = tr["ev"][pos:]
         return None if e["a"] == "w" else rest
+
+    # (R) spec -> code: complete behaviours of the top-level composition generated by TLC (every input split, call, and
+    # crash point at the bound; larger ones by -simulate), replayed into the real transforms with the crash injected
+    cfgl = lambda maxn, nb, c: ["INIT GInit", "NEXT GNext", "CONSTANTS", f"  MaxN = {maxn}", f"  NBits = {nb}", f"  C = {c}",   # noqa: E731
+                                "  HLen = 3", '  Variant = "fixed"', "INVARIANT Emit", "CHECK_DEADLOCK FALSE"]
+    behs = []
+    gens = [(2, 8, 2, None)] if quick else [(3, 8, 2, None), (2, 2, 4, None), (2, 4, 2, None), (2, 1, 8, None)]
+    sims = [(5, 8, 2, 150), (4, 2, 4, 100)] if quick else [(6, 8, 2, 3000), (5, 2, 4, 1500), (5, 4, 2, 1500), (5, 1, 8, 1500)]
+    for maxn, nb, c, num in gens + sims:
+        behs += behaviours.generate("Gen_Sigpyproc", {}, cfgl(maxn, nb, c), simulate=(f"num={num}" if num else None),
+                                    depth=(maxn + 4 if num else None), verdict=v, label=f"MaxN={maxn} nbits={nb} C={c}", timeout=3000)
+    for i, b in enumerate(behs):
+        b["i"] = i
+    nj = 28
+    rres = pool.pmap(compose_replay.job, [{"id": j, "behs": behs[j::nj]} for j in range(nj)], workers=14)
+    rrecs = {r["i"]: r for rr in rres for r in rr}
+    SITE_OF = {"extract": SITES["extract_samps"], "invert": SITES["invert"], "mask": SITES["mask"]}
+    agreed = sum(1 for b in behs if compose_replay.judge(v, b, rrecs[b["i"]], SITE_OF[b["op"]]))
+    v.traces += len(behs)
+    v.evaluations += len(behs)
+    v.extra["tlc_generated_composition_behaviours_replayed"] = len(behs)
+    v.extra["composition_behaviours_crashed_midway"] = sum(1 for b in behs if b["pc"] == "crashed" and 0 < len(b["hist"]) - 1)
+    v.extra["composition_behaviours_agreed"] = agreed
+    v.extra["composition_behaviours_same_write_grain_as_model"] = sum(1 for b in behs if compose_replay.same_grain(b, rrecs[b["i"]]))
+    if not behs or not any(b["pc"] == "crashed" and len(b["hist"]) >= 3 for b in behs) or not any(len(b["fs"]) >= 2 for b in behs):
+        raise MachineryFailure("the generated composition behaviours do not contain a multi-file input and a mid-stream crash")
 
     tracecheck.validate_total("Trace_Writer", traces, on_reject, verdict=v, label="writer histories", chunk=150)
     v.traces += len(traces)
